@@ -1,0 +1,7 @@
+// +build verif
+
+package lb
+
+// VerifSetRandInt replaces the random source of the random and least-connection
+// balancers (verification builds only).
+func VerifSetRandInt(f func() int) { randInt = f }
